@@ -171,13 +171,20 @@ pub fn heartbeat(unit: &str) {
 	if let Some(d) = dir {
 		let tid = format!("{:?}", std::thread::current().id());
 		let tid: String = tid.chars().filter(|c| c.is_ascii_digit()).collect();
-		let _ = std::fs::write(d.join(format!("{}.hb", tid)), unit);
+		let _ = std::fs::write(d.join(format!("{}-{}.hb", std::process::id(), tid)), unit);
 	}
 }
 
 pub fn heartbeat_init(id: &str) {
 	let d = PathBuf::from(format!("{}/target/hb/{}", VERIF, id));
 	let _ = std::fs::remove_dir_all(&d);
+	let _ = std::fs::create_dir_all(&d);
+	*HB_DIR.lock().unwrap() = Some(d);
+}
+
+/// Like `heartbeat_init` for worker processes: keeps what other workers wrote.
+pub fn heartbeat_init_keep(id: &str) {
+	let d = PathBuf::from(format!("{}/target/hb/{}", VERIF, id));
 	let _ = std::fs::create_dir_all(&d);
 	*HB_DIR.lock().unwrap() = Some(d);
 }
